@@ -32,21 +32,33 @@ func (p2 *Writer) writeNumeric(p any) {
 
 func (p2 *Writer) WriteUint8(p uint8) {
 	p2.writeNumeric(p)
+	if p2.opError != nil {
+		return
+	}
 	p2.written += 1
 }
 
 func (p2 *Writer) WriteUint16(p uint16) {
 	p2.writeNumeric(p)
+	if p2.opError != nil {
+		return
+	}
 	p2.written += 2
 }
 
 func (p2 *Writer) WriteUint32(p uint32) {
 	p2.writeNumeric(p)
+	if p2.opError != nil {
+		return
+	}
 	p2.written += 4
 }
 
 func (p2 *Writer) WriteUint64(p uint64) {
 	p2.writeNumeric(p)
+	if p2.opError != nil {
+		return
+	}
 	p2.written += 8
 }
 
